@@ -25,6 +25,7 @@ type CacheCfg struct {
 	TTLTick            int64  `json:"ttl_tick_s,omitempty"`
 	NoCallbacks        bool   `json:"no_callbacks,omitempty"`
 	NKeys              int    `json:"nkeys"`
+	AllowHashDup       bool   `json:"allow_hash_dup,omitempty"` // do not insist on distinct primary hashes (C01 provenance only needs values)
 }
 
 // Event kinds.
@@ -260,6 +261,11 @@ func NewLab(cfg CacheCfg) (*Lab, error) {
 		l.C, err = buildCache(l, func(i int) namedString { return namedString(fmt.Sprintf("key-%d", i)) }, func(k namedString) int { var i int; fmt.Sscanf(string(k), "key-%d", &i); return i })
 	case "bytes":
 		l.C, err = buildCache(l, func(i int) []byte { return []byte(fmt.Sprintf("key-%d", i)) }, func(k []byte) int { var i int; fmt.Sscanf(string(k), "key-%d", &i); return i })
+	case "bytes-short":
+		// short keys (1..8 bytes) that differ only in their number of trailing zero bytes, plus the empty key
+		l.C, err = buildCache(l, shortKey, func(k []byte) int { return shortKeyIdx(k) })
+	case "string-short":
+		l.C, err = buildCache(l, func(i int) string { return string(shortKey(i)) }, func(k string) int { return shortKeyIdx([]byte(k)) })
 	default:
 		return nil, fmt.Errorf("unknown key kind %q", cfg.KeyKind)
 	}
@@ -271,7 +277,7 @@ func NewLab(cfg CacheCfg) (*Lab, error) {
 	for i := 0; i < cfg.NKeys; i++ {
 		h, c := l.C.Hash(i)
 		l.Hashes[i] = [2]uint64{h, c}
-		if cfg.Collide == 0 {
+		if cfg.Collide == 0 && !cfg.AllowHashDup {
 			if j, dup := l.HashIdx[h]; dup {
 				return nil, fmt.Errorf("harness: keys %d and %d collide on the primary hash without Collide", i, j)
 			}
@@ -498,4 +504,23 @@ func (l *Lab) NewClientLocked(mu *sync.Mutex) *Client {
 	mu.Lock()
 	defer mu.Unlock()
 	return l.NewClient()
+}
+
+// shortKey(i): key 0 is empty; otherwise one non-zero byte followed by 0..7 zero bytes. Keys with the same first
+// byte differ only in length (trailing zeros).
+func shortKey(i int) []byte {
+	if i == 0 {
+		return []byte{}
+	}
+	i--
+	k := make([]byte, 1+i%8)
+	k[0] = byte(1 + i/8)
+	return k
+}
+
+func shortKeyIdx(k []byte) int {
+	if len(k) == 0 {
+		return 0
+	}
+	return 1 + (int(k[0])-1)*8 + len(k) - 1
 }
